@@ -140,10 +140,278 @@ fn execute(ch: &explorer::Chooser, rt: &tokio::runtime::Runtime, variant: Varian
     (run, obs)
 }
 
+// ---------------------------------------------------------------------------------------------
+// Sequential handle histories (join, leave, re-join, cancelled joins)
+// ---------------------------------------------------------------------------------------------
+
+#[derive(Clone, Copy, Debug, PartialEq, Eq, Hash)]
+enum HAct {
+    /// `gossip.stream(T)` awaited to completion; the handle is kept
+    Stream,
+    /// `gossip.stream(T)` polled until it has been pending `k` times (the actors get time to
+    /// answer between polls), then the future is dropped; if it completes earlier the handle is kept
+    CancelledStream(u8),
+    /// drop the oldest / the newest live reference
+    DropOldest,
+    DropNewest,
+    /// turn the newest handle into a subscription (the handle itself is dropped)
+    NewestToSubscription,
+}
+
+impl HAct {
+    fn name(&self) -> String {
+        match self {
+            HAct::Stream => "stream".into(),
+            HAct::CancelledStream(k) => format!("stream-dropped-at-pending-poll-{k}"),
+            HAct::DropOldest => "drop-oldest".into(),
+            HAct::DropNewest => "drop-newest".into(),
+            HAct::NewestToSubscription => "newest-handle-to-subscription".into(),
+        }
+    }
+}
+
+#[derive(Debug, Clone)]
+struct HStep {
+    act: String,
+    live_before: usize,
+    live_after: usize,
+    /// the manager's view after the step settled
+    subscribed: Option<bool>,
+    left_events_total: usize,
+    expected_left_total: usize,
+    publish_ok: Option<bool>,
+    stream_error: Option<String>,
+}
+
+enum Ref {
+    Handle(GossipHandle),
+    Sub(Box<dyn Send>),
+}
+
+/// One history on a fresh real Gossip.  The action at each step is chosen by `pick(live refs,
+/// has handle)`; `None` ends the history.
+fn run_history(rt: &tokio::runtime::Runtime, mut pick: impl FnMut(usize, bool) -> Option<HAct>) -> Result<Vec<HStep>, String> {
+    use std::future::Future;
+    use std::task::{Context, Poll};
+    let topic = Topic::from([11u8; 32]);
+    rt.block_on(async {
+        let address_book = AddressBook::builder().spawn().await.map_err(|e| e.to_string())?;
+        let endpoint = Endpoint::builder(address_book.clone()).spawn().await.map_err(|e| e.to_string())?;
+        let gossip = Gossip::builder(address_book.clone(), endpoint.clone()).spawn().await.map_err(|e| e.to_string())?;
+        let mut events = gossip.events().await.map_err(|e| e.to_string())?;
+        let me = endpoint.node_id();
+        let mut refs: Vec<Ref> = vec![];
+        let mut steps = vec![];
+        let mut left_total = 0usize;
+        let mut expected_left = 0usize;
+        // the overlay is joined while at least one reference is alive; a cancelled stream() may
+        // have joined and must then leave again, which is a join + leave of its own
+        loop {
+            let has_handle = refs.iter().any(|r| matches!(r, Ref::Handle(_)));
+            let Some(act) = pick(refs.len(), has_handle) else { break };
+            let live_before = refs.len();
+            let mut stream_error = None;
+            match act {
+                HAct::Stream => match gossip.stream(topic).await {
+                    Ok(h) => refs.push(Ref::Handle(h)),
+                    Err(e) => stream_error = Some(e.to_string()),
+                },
+                HAct::CancelledStream(k) => {
+                    let mut fut = Box::pin(gossip.stream(topic));
+                    let waker = futures_util::task::noop_waker();
+                    let mut cx = Context::from_waker(&waker);
+                    let mut pendings = 0u8;
+                    let mut done = None;
+                    for _ in 0..64 {
+                        match fut.as_mut().poll(&mut cx) {
+                            Poll::Ready(r) => {
+                                done = Some(r);
+                                break;
+                            }
+                            Poll::Pending => {
+                                pendings += 1;
+                                if pendings >= k {
+                                    break;
+                                }
+                                // let the actors answer before the next poll
+                                tokio::time::sleep(Duration::from_millis(60)).await;
+                            }
+                        }
+                    }
+                    match done {
+                        Some(Ok(h)) => refs.push(Ref::Handle(h)),
+                        Some(Err(e)) => stream_error = Some(e.to_string()),
+                        None => drop(fut),
+                    }
+                }
+                HAct::DropOldest => {
+                    if !refs.is_empty() {
+                        drop(refs.remove(0));
+                    }
+                }
+                HAct::DropNewest => {
+                    drop(refs.pop());
+                }
+                HAct::NewestToSubscription => {
+                    if let Some(i) = refs.iter().rposition(|r| matches!(r, Ref::Handle(_))) {
+                        if let Ref::Handle(h) = refs.remove(i) {
+                            let sub = h.subscribe();
+                            drop(h);
+                            refs.push(Ref::Sub(Box::new(sub)));
+                        }
+                    }
+                }
+            }
+            let live_after = refs.len();
+            if live_before > 0 && live_after == 0 {
+                expected_left += 1;
+            }
+            // settle: the manager handles its mailbox in order (an answered RPC = everything sent
+            // before was handled); leaving and unregistering happen asynchronously afterwards, so
+            // the expected view is awaited for a while before anything is judged
+            let want = live_after > 0;
+            let mut subscribed = None;
+            let t0 = std::time::Instant::now();
+            loop {
+                let _ = tokio::time::timeout(Duration::from_secs(10), gossip.events()).await;
+                tokio::time::sleep(Duration::from_millis(if want { 150 } else { 50 })).await;
+                if let Ok(Ok(infos)) = tokio::time::timeout(Duration::from_secs(10), address_book.node_infos_by_topics([topic])).await {
+                    use p2panda_store::address_book::NodeInfo as _;
+                    subscribed = Some(infos.iter().any(|i| i.id() == me));
+                }
+                while let Ok(ev) = events.try_recv() {
+                    if matches!(ev, GossipEvent::Left { .. }) {
+                        left_total += 1;
+                    }
+                }
+                if want || (subscribed == Some(false) && left_total >= expected_left) || t0.elapsed() > Duration::from_secs(6) {
+                    break;
+                }
+            }
+            let mut publish_ok = None;
+            if let Some(Ref::Handle(h)) = refs.iter().rev().find(|r| matches!(r, Ref::Handle(_))) {
+                let r = tokio::time::timeout(Duration::from_secs(10), h.publish(b"alive?".to_vec())).await;
+                let _ = tokio::time::timeout(Duration::from_secs(10), gossip.events()).await;
+                let r2 = tokio::time::timeout(Duration::from_secs(10), h.publish(b"alive!".to_vec())).await;
+                publish_ok = Some(matches!(r, Ok(Ok(()))) && matches!(r2, Ok(Ok(()))));
+            }
+            steps.push(HStep { act: act.name(), live_before, live_after, subscribed, left_events_total: left_total, expected_left_total: expected_left, publish_ok, stream_error });
+        }
+        drop(refs);
+        drop(gossip);
+        Ok(steps)
+    })
+}
+
+/// Every history of `depth` actions (pruned: drops only with a live reference, conversion only
+/// with a live handle), each on a fresh Gossip, explored on `threads` workers.
+fn histories(rep: &mut Report, depth: usize, cancel_polls: &[u8], threads: usize, wall: Duration) {
+    let part = format!("handle-histories/depth<={depth}");
+    let menu = |live: usize, has_handle: bool| -> Vec<HAct> {
+        let mut v = vec![HAct::Stream];
+        for k in cancel_polls {
+            v.push(HAct::CancelledStream(*k));
+        }
+        if live > 0 {
+            v.push(HAct::DropNewest);
+        }
+        if live > 1 {
+            v.push(HAct::DropOldest);
+        }
+        if has_handle {
+            v.push(HAct::NewestToSubscription);
+        }
+        v
+    };
+    let outs: Mutex<Vec<(Vec<u32>, Result<Vec<HStep>, String>)>> = Mutex::new(vec![]);
+    let stats = explorer::dfs_par(
+        &DfsCfg { max_dev: usize::MAX, wall, threads, ..Default::default() },
+        |ch| {
+            thread_local! {
+                static RT: tokio::runtime::Runtime = tokio::runtime::Builder::new_multi_thread().worker_threads(2).enable_all().build().expect("runtime");
+            }
+            let mut n = 0usize;
+            RT.with(|rt| {
+                run_history(rt, |live, has_handle| {
+                    if n >= depth {
+                        return None;
+                    }
+                    n += 1;
+                    let m = menu(live, has_handle);
+                    Some(m[ch.choose_free(m.len(), "action")])
+                })
+            })
+        },
+        |ch, r| outs.lock().unwrap().push((ch.vector(), r)),
+    );
+    rep.absorb_dfs(&part, &stats, usize::MAX);
+    let mut outs = outs.into_inner().unwrap();
+    outs.sort_by(|a, b| a.0.cmp(&b.0));
+    for (vector, r) in outs {
+        let steps = match r {
+            Ok(s) => s,
+            Err(e) => {
+                rep.machinery_error(format!("gossip setup failed: {e}"));
+                continue;
+            }
+        };
+        let names: Vec<&str> = steps.iter().map(|s| s.act.as_str()).collect();
+        rep.state(&("history", &names));
+        let replay = json!({"part": part, "vector": vector, "actions": names});
+        let rejoin = steps.iter().enumerate().any(|(i, s)| s.live_before == 0 && s.live_after > 0 && steps[..i].iter().any(|p| p.live_before > 0 && p.live_after == 0));
+        let cancelled = steps.iter().any(|s| s.act.starts_with("stream-dropped") && s.live_after == s.live_before);
+        if rejoin || cancelled {
+            rep.nontrivial(&("history", &names));
+        }
+        for (i, s) in steps.iter().enumerate() {
+            rep.transitions += 1;
+            rep.outcome(&("history-step", s.live_after > 0, s.subscribed, s.publish_ok, s.left_events_total == s.expected_left_total));
+            let hist = names[..=i].join(", ");
+            if let Some(e) = &s.stream_error {
+                rep.violation("history/stream-failed", format!("history [{hist}]: stream() returned an error: {e}"), replay.clone());
+                break;
+            }
+            if s.subscribed.is_none() {
+                rep.machinery_error("address book did not answer".into());
+                break;
+            }
+            if s.live_after > 0 && (s.subscribed == Some(false) || s.publish_ok == Some(false)) {
+                let class = if rejoin { "after-rejoin" } else { "first-lifetime" };
+                rep.violation(
+                    format!("left-while-handle-alive/history/{class}"),
+                    format!("history [{hist}]: {} reference(s) alive, but the overlay has been left: manager's view subscribed={:?}, publish ok {:?}, Left events so far {}", s.live_after, s.subscribed, s.publish_ok, s.left_events_total),
+                    replay.clone(),
+                );
+                break;
+            }
+            if s.live_after == 0 && s.subscribed == Some(true) {
+                let class = if s.act.starts_with("stream-dropped") { "after-cancelled-stream" } else { "after-last-drop" };
+                rep.violation(
+                    format!("overlay-not-left/history/{class}"),
+                    format!("history [{hist}]: no handle or subscription is alive, but the node is still registered for the topic 6 s later (Left events so far {})", s.left_events_total),
+                    replay.clone(),
+                );
+                break;
+            }
+            if s.live_after > 0 && s.left_events_total > s.expected_left_total + steps[..=i].iter().filter(|p| p.act.starts_with("stream-dropped") && p.live_after == p.live_before).count() {
+                rep.violation(
+                    "left-more-often-than-last-reference-dropped/history".to_string(),
+                    format!("history [{hist}]: {} Left events although the last reference went away only {} time(s)", s.left_events_total, s.expected_left_total),
+                    replay.clone(),
+                );
+                break;
+            }
+        }
+        if rep.want_sample() && rejoin {
+            rep.sample(json!({"history": names, "subscribed_after_each_step": steps.iter().map(|s| s.subscribed).collect::<Vec<_>>(), "left_events": steps.last().map(|s| s.left_events_total)}));
+        }
+    }
+}
+
 pub fn run(mut rep: Report) -> i32 {
     let thorough = rep.thorough();
     let bound = if thorough { 3 } else { 2 };
-    rep.rule = format!("real Gossip with a live handle h0 on topic T; thread 'streamer' runs stream(T) (variants: keeps the handle / drops it again) while thread 'dropper' drops h0 (or a subscription made from it); every interleaving of their schedule points (tokio lock operations and the three hook points of gossip/api.rs) with at most {bound} preemptions; oracle after draining the manager: a kept handle publishes successfully, and Left events match the number of times the last reference went away; non-trivial = execution with at least one preemption");
+    rep.rule = format!("real Gossip with a live handle h0 on topic T; thread 'streamer' runs stream(T) (variants: keeps the handle / drops it again) while thread 'dropper' drops h0 (or a subscription made from it); every interleaving of their schedule points (tokio lock operations and the three hook points of gossip/api.rs) with at most {bound} preemptions; oracle after draining the manager: a kept handle publishes successfully, and Left events match the number of times the last reference went away; non-trivial = execution with at least one preemption.  Part handle-histories: every sequence of up to {} actions from {{stream, stream() dropped at its k-th pending poll, drop oldest, drop newest, newest handle -> subscription}} on a fresh Gossip (join, leave, re-join, several handles in a second lifetime, cancelled joins); after every action the manager's registration of the node for the topic must equal 'a reference is alive' (awaited for up to 6 s when it has to go away)", if thorough { 5 } else { 4 });
     let rt = match tokio::runtime::Builder::new_multi_thread().worker_threads(2).enable_all().build() {
         Ok(rt) => rt,
         Err(e) => {
@@ -236,6 +504,10 @@ pub fn run(mut rep: Report) -> i32 {
             }
         }
     }
+    // sequential histories on a fresh Gossip each: join, leave, re-join, cancelled joins
+    let (depth, polls): (usize, &[u8]) = if thorough { (5, &[1, 2, 3]) } else { (4, &[2]) };
+    let hist_threads = rep.args.threads.clamp(1, 8);
+    histories(&mut rep, depth, polls, hist_threads, Duration::from_secs(if thorough { 900 } else { 100 }));
     rep.set("preemption_bound", json!(bound));
     rep.set("runs_repeated_because_an_actor_missed_the_idle_window", json!(retries));
     rep.assume("actor threads (gossip manager, sessions, endpoint) are not scheduled by the explorer; their wake-ups only take effect when no explored thread can run, and the verdict is read after an RPC round trip that drains the manager's mailbox");
